@@ -2,7 +2,7 @@
 
 PROP = dict(
     module="JadeModel.Props.C07", ns="Jade.C07",
-    required=["C07_round_feeds_status_update_partial", "C07_blocked_not_submitted_partial", "C07_rollback_hands_blocked_job_on", "C07_batches_wellformed", "C07_batch_size_le", "C07_batch_time_le", "C07_no_blocked_without_tryadd",
+    required=["C07_blocked_looked_at_or_doomed", "C07_round_feeds_status_update_partial", "C07_blocked_not_submitted_partial", "C07_rollback_hands_blocked_job_on", "C07_batches_wellformed", "C07_batch_size_le", "C07_batch_time_le", "C07_no_blocked_without_tryadd",
               "C07_batches_disjoint", "C07_dryRun_same_batches", "C07_fuel_suffices", "C07_unvalidated_estimate_diverges"],
     suites=["batch", "slurm", "system"],
     level_text="Machine-checked Lean theorems over _submit_batches/_make_batch/_BatchJobs for all candidate lists, all "
